@@ -6,6 +6,9 @@ import Mathlib.Data.List.Perm.Basic
 import Mathlib.Data.List.Range
 import Mathlib.Tactic.Ring
 import Mathlib.Tactic.Linarith
+import Mathlib.Tactic.FieldSimp
+import Mathlib.Tactic.Positivity
+import Mathlib.Data.Rat.Floor
 /-!
 # Lemmas for C17 (ensemble structures)
 -/
@@ -660,5 +663,845 @@ theorem mem_allPairs {n i j : Nat} (hij : i < j) (hj : j < n) : (i, j) ∈ allPa
   refine ⟨i, List.mem_range.mpr (by omega), ?_⟩
   rw [List.mem_map]
   exact ⟨j, List.mem_filter.mpr ⟨List.mem_range.mpr hj, by simpa using hij⟩, rfl⟩
+
+
+/-! ### Crystals: use allocation -/
+
+theorem roundHalfEven_bounds (x : Rat) :
+    x - 1 / 2 ≤ (roundHalfEven x : Rat) ∧ (roundHalfEven x : Rat) ≤ x + 1 / 2 := by
+  have h1 := Rat.floor_le x
+  have h2 := Rat.lt_floor_add_one x
+  push_cast at h2
+  unfold roundHalfEven
+  simp only
+  split_ifs <;> push_cast <;> constructor <;> linarith
+
+theorem rsum_perm {l₁ l₂ : List Rat} (h : l₁.Perm l₂) : rsum l₁ = rsum l₂ := by
+  induction h with
+  | nil => rfl
+  | cons x _ ih => simp only [rsum, ih]
+  | swap x y l => simp only [rsum]; ring
+  | trans _ _ ih1 ih2 => exact ih1.trans ih2
+
+theorem rsum_eq_range (l : List Rat) : rsum l = rsum ((List.range l.length).map (fun i => l.getD i 0)) := by
+  have : (List.range l.length).map (fun i => l.getD i 0) = l := by
+    apply List.ext_getElem (by simp)
+    intro i h1 h2
+    simp [List.getD_eq_getElem?_getD, List.getElem?_eq_getElem h2]
+  rw [this]
+
+theorem rsum_nonneg {l : List Rat} (h : ∀ x ∈ l, 0 ≤ x) : 0 ≤ rsum l := by
+  induction l with
+  | nil => simp [rsum]
+  | cons a l ih =>
+    simp only [rsum]
+    have := h a List.mem_cons_self
+    have := ih (fun x hx => h x (List.mem_cons_of_mem _ hx))
+    linarith
+
+theorem rsum_le_length_mul {l : List Rat} {s : Rat} (h : ∀ x ∈ l, x ≤ s) : rsum l ≤ (l.length : Rat) * s := by
+  induction l with
+  | nil => simp [rsum]
+  | cons a l ih =>
+    simp only [rsum, List.length_cons]
+    have := h a List.mem_cons_self
+    have := ih (fun x hx => h x (List.mem_cons_of_mem _ hx))
+    push_cast
+    linarith
+
+theorem isum_set (l : List Int) (f : Nat) (hf : f < l.length) (v : Int) :
+    isum (l.set f v) = isum l - l.getD f 0 + v := by
+  induction l generalizing f with
+  | nil => simp at hf
+  | cons a l ih =>
+    cases f with
+    | zero => simp [isum]; ring
+    | succ f =>
+      simp only [List.set_cons_succ, isum, List.getD_cons_succ]
+      rw [ih f (by simpa using hf)]; ring
+
+theorem isum_replicate (n : Nat) (v : Int) : isum (List.replicate n v) = n * v := by
+  induction n with
+  | zero => simp [isum]
+  | succ n ih => simp only [List.replicate_succ, isum, ih]; push_cast; ring
+
+/-- score of feature `f` -/
+def sc (scores : List Rat) (f : Nat) : Rat := scores.getD f 0
+
+theorem sortedDesc_head (scores : List Rat) : ∀ (f : Nat) (fs : List Nat), sortedDesc scores (f :: fs) = true →
+    (∀ g ∈ fs, sc scores g ≤ sc scores f) ∧ sortedDesc scores fs = true
+  | _, [], _ => ⟨fun _ h => (by cases h), rfl⟩
+  | f, g :: rest, h => by
+    simp only [sortedDesc, Bool.and_eq_true, decide_eq_true_eq] at h
+    obtain ⟨h1, h2⟩ := h
+    obtain ⟨h3, _⟩ := sortedDesc_head scores g rest h2
+    refine ⟨?_, h2⟩
+    intro x hx
+    rcases List.mem_cons.mp hx with rfl | hx
+    · exact h1
+    · exact le_trans (h3 x hx) h1
+
+/-- the invariant of the use-allocation loop before the features `fs` are processed -/
+structure AllocInv (n L : Nat) (T : Int) (scores : List Rat) (fs : List Nat) (st : Alloc) : Prop where
+  rs : st.rs = rsum (fs.map (sc scores))
+  rem0 : 0 ≤ st.rem
+  remle : st.rem ≤ (fs.length : Int) * ((L : Int) - 1)
+  len : st.uses.length = n
+  fresh : ∀ g ∈ fs, g < n ∧ st.uses.getD g 0 = 1
+  rng : ∀ g, g < n → 1 ≤ st.uses.getD g 0 ∧ st.uses.getD g 0 ≤ (L : Int)
+  total : isum st.uses + st.rem = T
+
+theorem allocStep_inv (n L : Nat) (T : Int) (scores : List Rat) (hL : 1 ≤ L) (f : Nat) (fs : List Nat) (st : Alloc)
+    (inv : AllocInv n L T scores (f :: fs) st) (hnd : (f :: fs).Nodup)
+    (hpos : ∀ g ∈ f :: fs, 0 < sc scores g) (hmax : ∀ g ∈ fs, sc scores g ≤ sc scores f) :
+    ∃ st', allocStep L scores st f = .ok st' ∧ AllocInv n L T scores fs st' := by
+  have hs : 0 < sc scores f := hpos f List.mem_cons_self
+  have hrs : st.rs = sc scores f + rsum (fs.map (sc scores)) := by rw [inv.rs]; rfl
+  have htail : 0 ≤ rsum (fs.map (sc scores)) := rsum_nonneg (by
+    intro x hx
+    rw [List.mem_map] at hx
+    obtain ⟨g, hg, rfl⟩ := hx
+    exact (hpos g (List.mem_cons_of_mem _ hg)).le)
+  have hrspos : 0 < st.rs := by rw [hrs]; linarith
+  have hrsle : st.rs ≤ ((fs.length : Rat) + 1) * sc scores f := by
+    rw [hrs]
+    have := rsum_le_length_mul (l := fs.map (sc scores)) (s := sc scores f) (by
+      intro x hx
+      rw [List.mem_map] at hx
+      obtain ⟨g, hg, rfl⟩ := hx
+      exact hmax g hg)
+    rw [List.length_map] at this
+    linarith
+  set x : Rat := (st.rem : Rat) * sc scores f / st.rs with hx
+  obtain ⟨b1, b2⟩ := roundHalfEven_bounds x
+  have hrem0 : (0 : Rat) ≤ (st.rem : Rat) := by exact_mod_cast inv.rem0
+  have hx0 : 0 ≤ x := div_nonneg (mul_nonneg hrem0 hs.le) hrspos.le
+  have hxle : x ≤ (st.rem : Rat) := by
+    rw [hx, div_le_iff₀ hrspos]
+    have : sc scores f ≤ st.rs := by rw [hrs]; linarith
+    exact mul_le_mul_of_nonneg_left this hrem0
+  -- x ≥ rem / m
+  have hm : (0 : Rat) < (fs.length : Rat) + 1 := by positivity
+  have hxge : (st.rem : Rat) / ((fs.length : Rat) + 1) ≤ x := by
+    rw [hx, div_le_div_iff₀ hm hrspos]
+    have := mul_le_mul_of_nonneg_left hrsle hrem0
+    linarith
+  set a : Int := roundHalfEven x with ha
+  have ha0 : 0 ≤ a := by
+    have : ((-1 : Int) : Rat) < (a : Rat) := by push_cast; linarith
+    have : (-1 : Int) < a := by exact_mod_cast this
+    omega
+  have hale : a ≤ st.rem := by
+    have : (a : Rat) < ((st.rem + 1 : Int) : Rat) := by push_cast; linarith
+    have : a < st.rem + 1 := by exact_mod_cast this
+    omega
+  have hremle : (st.rem : Rat) ≤ ((fs.length : Rat) + 1) * ((L : Rat) - 1) := by
+    have := inv.remle
+    simp only [List.length_cons] at this
+    have : (st.rem : Rat) ≤ (((fs.length + 1 : Nat) : Int) * ((L : Int) - 1) : Int) := by exact_mod_cast this
+    push_cast at this
+    linarith
+  -- rem - a ≤ (m-1)(L-1) when not capped
+  have hgap : st.rem - a ≤ (fs.length : Int) * ((L : Int) - 1) := by
+    have h1 : (st.rem : Rat) - (a : Rat) ≤ (fs.length : Rat) * ((L : Rat) - 1) + 1 / 2 := by
+      have h2 : (st.rem : Rat) - (st.rem : Rat) / ((fs.length : Rat) + 1)
+          ≤ (fs.length : Rat) * ((L : Rat) - 1) := by
+        have : (st.rem : Rat) - (st.rem : Rat) / ((fs.length : Rat) + 1)
+            = (st.rem : Rat) * (fs.length : Rat) / ((fs.length : Rat) + 1) := by
+          field_simp; ring
+        rw [this, div_le_iff₀ hm]
+        have hl0 : (0 : Rat) ≤ (fs.length : Rat) := by positivity
+        nlinarith [mul_le_mul_of_nonneg_right hremle hl0]
+      linarith
+    have h3 : ((st.rem - a : Int) : Rat) < (((fs.length : Int) * ((L : Int) - 1) + 1 : Int) : Rat) := by
+      push_cast; linarith
+    have : st.rem - a < (fs.length : Int) * ((L : Int) - 1) + 1 := by exact_mod_cast h3
+    omega
+  have hL' : (0 : Int) ≤ (L : Int) - 1 := by omega
+  set added : Int := min a ((L : Int) - 1) with hadd
+  have hadd0 : 0 ≤ added := le_min ha0 hL'
+  have haddL : added ≤ (L : Int) - 1 := min_le_right _ _
+  have hadda : added ≤ a := min_le_left _ _
+  have hf := inv.fresh f List.mem_cons_self
+  refine ⟨⟨st.uses.set f (st.uses.getD f 0 + added), st.rem - added, st.rs - sc scores f⟩, ?_, ?_⟩
+  · unfold allocStep
+    simp only
+    rw [if_neg (ne_of_gt hrspos)]
+    rfl
+  · refine ⟨?_, ?_, ?_, by simpa using inv.len, ?_, ?_, ?_⟩
+    · simp only; rw [hrs]; ring
+    · simp only; omega
+    · simp only
+      rcases min_choice a ((L : Int) - 1) with h | h
+      · rw [hadd, h]; exact hgap
+      · rw [hadd, h]
+        have := inv.remle
+        simp only [List.length_cons] at this
+        push_cast at this
+        nlinarith
+    · intro g hg
+      have hg' := inv.fresh g (List.mem_cons_of_mem _ hg)
+      refine ⟨hg'.1, ?_⟩
+      have hne : f ≠ g := by
+        rintro rfl
+        exact (List.nodup_cons.mp hnd).1 hg
+      simp only [List.getD_eq_getElem?_getD, List.getElem?_set_ne hne]
+      simpa [List.getD_eq_getElem?_getD] using hg'.2
+    · intro g hg
+      by_cases hfg : f = g
+      · subst hfg
+        simp only [List.getD_eq_getElem?_getD, List.getElem?_set_self (by rw [inv.len]; exact hg), Option.getD_some]
+        rw [← List.getD_eq_getElem?_getD, hf.2]
+        omega
+      · simp only [List.getD_eq_getElem?_getD, List.getElem?_set_ne hfg]
+        simpa [List.getD_eq_getElem?_getD] using inv.rng g hg
+    · simp only
+      rw [isum_set _ _ (by rw [inv.len]; exact hf.1)]
+      have := inv.total
+      omega
+
+
+theorem allocLoop_inv (n L : Nat) (T : Int) (scores : List Rat) (hL : 1 ≤ L) : ∀ (fs : List Nat) (st : Alloc),
+    AllocInv n L T scores fs st → fs.Nodup → (∀ g ∈ fs, 0 < sc scores g) → sortedDesc scores fs = true →
+    ∃ st', allocLoop L scores fs st = .ok st' ∧ AllocInv n L T scores [] st'
+  | [], st, inv, _, _, _ => ⟨st, rfl, inv⟩
+  | f :: fs, st, inv, hnd, hpos, hso => by
+    obtain ⟨hmax, hso'⟩ := sortedDesc_head scores f fs hso
+    obtain ⟨st1, h1, inv1⟩ := allocStep_inv n L T scores hL f fs st inv hnd hpos hmax
+    obtain ⟨st2, h2, inv2⟩ := allocLoop_inv n L T scores hL fs st1 inv1 (List.nodup_cons.mp hnd).2
+      (fun g hg => hpos g (List.mem_cons_of_mem _ hg)) hso'
+    refine ⟨st2, ?_, inv2⟩
+    unfold allocLoop
+    simp only [bind, Except.bind, h1, h2]
+
+/-- **use allocation.** With `r ≤ n ≤ L·r` features, all importance scores positive and `order`
+a descending sort of them, the allocation loop never divides by zero, the code's
+`assert np.sum(features_uses) == total_feature_use` holds, and every feature gets between 1 and
+`num_lattices` uses. -/
+theorem allocUses_ok (n L r : Nat) (scores : List Rat) (order : List Nat) (hlen : scores.length = n)
+    (h0 : 0 < n) (hrn : r ≤ n) (hn : n ≤ L * r) (hpos : ∀ s ∈ scores, 0 < s)
+    (hperm : order.Perm (List.range n)) (hso : sortedDesc scores order = true) :
+    ∃ uses, allocUses n L r scores order = .ok uses ∧ uses.length = n ∧ isum uses = ((L * r : Nat) : Int) ∧
+      ∀ f, f < n → 1 ≤ uses.getD f 0 ∧ uses.getD f 0 ≤ (L : Int) := by
+  have hL : 1 ≤ L := by
+    rcases Nat.eq_zero_or_pos L with rfl | h
+    · simp at hn; omega
+    · exact h
+  have hmem : ∀ g ∈ order, g < n := fun g hg => List.mem_range.mp (hperm.subset hg)
+  have hscpos : ∀ g ∈ order, 0 < sc scores g := by
+    intro g hg
+    have hg' : g < scores.length := by rw [hlen]; exact hmem g hg
+    unfold sc
+    simp only [List.getD_eq_getElem?_getD, List.getElem?_eq_getElem hg', Option.getD_some]
+    exact hpos _ (List.getElem_mem _)
+  have hrep : ∀ g, g < n → (List.replicate n (1 : Int)).getD g 0 = 1 := by
+    intro g hg
+    simp [List.getD_eq_getElem?_getD, hg]
+  have inv0 : AllocInv n L ((L * r : Nat) : Int) scores order
+      ⟨List.replicate n 1, (L * r : Int) - n, rsum scores⟩ := by
+    refine ⟨?_, ?_, ?_, by simp, ?_, ?_, ?_⟩
+    · simp only
+      rw [rsum_eq_range scores, hlen]
+      exact (rsum_perm (List.Perm.map _ hperm)).symm
+    · simp only
+      have : (n : Int) ≤ ((L * r : Nat) : Int) := by exact_mod_cast hn
+      push_cast at this; omega
+    · simp only
+      rw [hperm.length_eq, List.length_range]
+      have h1 : L * r ≤ L * n := Nat.mul_le_mul_left L hrn
+      have h2 : ((L * r : Nat) : Int) ≤ ((L * n : Nat) : Int) := by exact_mod_cast h1
+      push_cast at h2
+      nlinarith
+    · intro g hg
+      exact ⟨hmem g hg, hrep g (hmem g hg)⟩
+    · intro g hg
+      simp only
+      rw [hrep g hg]
+      omega
+    · simp only
+      rw [isum_replicate]
+      push_cast; ring
+  obtain ⟨st', h1, inv'⟩ := allocLoop_inv n L _ scores hL order _ inv0
+    (hperm.nodup_iff.mpr List.nodup_range) hscpos hso
+  have hrem : st'.rem = 0 := by
+    have := inv'.remle
+    have := inv'.rem0
+    simp only [List.length_nil, Nat.cast_zero, zero_mul] at *
+    omega
+  have htot : isum st'.uses = ((L * r : Nat) : Int) := by
+    have := inv'.total
+    rw [hrem] at this
+    omega
+  refine ⟨st'.uses, ?_, inv'.len, htot, inv'.rng⟩
+  unfold allocUses
+  simp only [bind, Except.bind]
+  have h1' : allocLoop L scores order ⟨List.replicate n 1, (↑L * ↑r : Int) - ↑n, rsum scores⟩ = .ok st' := h1
+  rw [h1']
+  simp only
+  rw [if_neg (by push_cast at htot; rw [htot]; simp)]
+  rfl
+
+
+/-! ### Crystals: the round-robin add list -/
+
+/-- round `u` of the round-robin: the features with more than `u` uses, in index order -/
+def rrRow (uses : List Int) (u : Nat) : List Nat :=
+  (uses.zipIdx).filterMap fun (p : Int × Nat) => if ((u : Int) + 1) ≤ p.1 then some p.2 else none
+
+theorem addList_eq (uses : List Int) :
+    addList uses = (List.range (uses.foldl max 0).toNat).flatMap (rrRow uses) := rfl
+
+theorem foldl_max_ge : ∀ (l : List Int) (a : Int), a ≤ l.foldl max a ∧ ∀ x ∈ l, x ≤ l.foldl max a
+  | [], a => ⟨le_refl _, fun _ h => by cases h⟩
+  | y :: ys, a => by
+    obtain ⟨h1, h2⟩ := foldl_max_ge ys (max a y)
+    rw [List.foldl_cons]
+    refine ⟨le_trans (le_max_left _ _) h1, ?_⟩
+    intro x hx
+    rcases List.mem_cons.mp hx with rfl | hx
+    · exact le_trans (le_max_right _ _) h1
+    · exact h2 x hx
+
+theorem mem_rrRow (uses : List Int) (u f : Nat) :
+    f ∈ rrRow uses u ↔ ∃ x, uses[f]? = some x ∧ (u : Int) + 1 ≤ x := by
+  unfold rrRow
+  rw [List.mem_filterMap]
+  constructor
+  · rintro ⟨⟨x, i⟩, hp, h⟩
+    rw [List.mem_zipIdx_iff_getElem?] at hp
+    simp only at hp h
+    split_ifs at h with hc
+    simp only [Option.some.injEq] at h
+    subst h
+    exact ⟨x, hp, hc⟩
+  · rintro ⟨x, hx, hc⟩
+    refine ⟨(x, f), ?_, by simp [hc]⟩
+    rw [List.mem_zipIdx_iff_getElem?]
+    exact hx
+
+theorem filterMap_snd_eq {α} (c : α × Nat → Prop) [DecidablePred c] : ∀ l : List (α × Nat),
+    l.filterMap (fun p => if c p then some p.2 else none) = (l.filter (fun p => decide (c p))).map (·.2)
+  | [] => rfl
+  | p :: l => by
+    by_cases h : c p
+    · simp [h, filterMap_snd_eq c l]
+    · simp [h, filterMap_snd_eq c l]
+
+theorem rrRow_nodup (uses : List Int) (u : Nat) : (rrRow uses u).Nodup := by
+  unfold rrRow
+  rw [filterMap_snd_eq (fun p : Int × Nat => (u : Int) + 1 ≤ p.1)]
+  have hsub : List.Sublist (((uses.zipIdx).filter (fun p => decide ((u : Int) + 1 ≤ p.1))).map (·.2))
+      ((uses.zipIdx).map (·.2)) := List.Sublist.map _ List.filter_sublist
+  refine List.Nodup.sublist hsub ?_
+  rw [List.zipIdx_map_snd]
+  exact List.nodup_range'
+
+theorem count_rrRow (uses : List Int) (u f : Nat) (hf : f < uses.length) :
+    (rrRow uses u).count f = if (u : Int) + 1 ≤ uses.getD f 0 then 1 else 0 := by
+  have hget : uses[f]? = some (uses.getD f 0) := by
+    simp [List.getD_eq_getElem?_getD, List.getElem?_eq_getElem hf]
+  split_ifs with hc
+  · exact List.count_eq_one_of_mem (rrRow_nodup uses u) ((mem_rrRow uses u f).mpr ⟨_, hget, hc⟩)
+  · apply List.count_eq_zero_of_not_mem
+    intro hmem
+    obtain ⟨x, hx, hc'⟩ := (mem_rrRow uses u f).mp hmem
+    rw [hget] at hx
+    simp only [Option.some.injEq] at hx
+    subst hx
+    exact hc hc'
+
+theorem count_rr_prefix (uses : List Int) (f : Nat) (hf : f < uses.length) (h0 : 0 ≤ uses.getD f 0) :
+    ∀ M : Nat, (((List.range M).flatMap (rrRow uses)).count f : Int) = min (M : Int) (uses.getD f 0)
+  | 0 => by
+    simp only [List.range_zero, List.flatMap_nil, List.count_nil, Nat.cast_zero]
+    exact (min_eq_left h0).symm
+  | M + 1 => by
+    rw [List.range_succ, List.flatMap_append, List.count_append]
+    simp only [List.flatMap_cons, List.flatMap_nil, List.append_nil]
+    push_cast
+    rw [count_rr_prefix uses f hf h0 M, count_rrRow uses M f hf]
+    split_ifs with hc
+    · rw [min_eq_left (by omega), min_eq_left (by omega)]; push_cast; ring
+    · rw [min_eq_right (by omega), min_eq_right (by omega)]; simp
+
+theorem length_rrRow_aux (u : Nat) : ∀ (l : List Int) (s : Nat),
+    (((l.zipIdx s).filterMap fun (p : Int × Nat) => if ((u : Int) + 1) ≤ p.1 then some p.2 else none).length : Int)
+      = isum (l.map fun x => if (u : Int) + 1 ≤ x then 1 else 0)
+  | [], _ => by simp [isum]
+  | x :: l, s => by
+    rw [List.zipIdx_cons]
+    by_cases hc : (u : Int) + 1 ≤ x
+    · simp only [List.filterMap_cons, hc, if_true, List.length_cons, List.map_cons, isum]
+      push_cast
+      rw [length_rrRow_aux u l (s + 1)]; ring
+    · simp only [List.filterMap_cons, hc, if_false, List.map_cons, isum]
+      rw [length_rrRow_aux u l (s + 1)]; ring
+
+theorem isum_min_succ (M : Nat) : ∀ (l : List Int), (∀ x ∈ l, 0 ≤ x) →
+    isum (l.map fun x => min ((M : Int) + 1) x)
+      = isum (l.map fun x => min (M : Int) x) + isum (l.map fun x => if (M : Int) + 1 ≤ x then 1 else 0)
+  | [], _ => by simp [isum]
+  | x :: l, h => by
+    simp only [List.map_cons, isum]
+    rw [isum_min_succ M l (fun y hy => h y (List.mem_cons_of_mem _ hy))]
+    have hx := h x List.mem_cons_self
+    split_ifs with hc
+    · rw [min_eq_left (by omega), min_eq_left (by omega)]; ring
+    · rw [min_eq_right (by omega), min_eq_right (by omega)]; ring
+
+theorem length_rr_prefix (uses : List Int) (h0 : ∀ x ∈ uses, 0 ≤ x) : ∀ M : Nat,
+    (((List.range M).flatMap (rrRow uses)).length : Int) = isum (uses.map fun x => min (M : Int) x)
+  | 0 => by
+    simp only [List.range_zero, List.flatMap_nil, List.length_nil, Nat.cast_zero]
+    have : ∀ l : List Int, (∀ x ∈ l, 0 ≤ x) → isum (l.map fun x => min (0 : Int) x) = 0 := by
+      intro l hl
+      induction l with
+      | nil => rfl
+      | cons a l ih =>
+        simp only [List.map_cons, isum]
+        rw [ih (fun y hy => hl y (List.mem_cons_of_mem _ hy)), min_eq_left (hl a List.mem_cons_self)]; rfl
+    exact (this uses h0).symm
+  | M + 1 => by
+    rw [List.range_succ, List.flatMap_append, List.length_append]
+    simp only [List.flatMap_cons, List.flatMap_nil, List.append_nil]
+    push_cast
+    rw [length_rr_prefix uses h0 M, isum_min_succ M uses h0]
+    congr 1
+    exact length_rrRow_aux M uses 0
+
+theorem isum_min_of_le (m : Int) : ∀ (l : List Int), (∀ x ∈ l, x ≤ m) → isum (l.map fun x => min m x) = isum l
+  | [], _ => rfl
+  | x :: l, h => by
+    simp only [List.map_cons, isum]
+    rw [isum_min_of_le m l (fun y hy => h y (List.mem_cons_of_mem _ hy)), min_eq_right (h x List.mem_cons_self)]
+
+/-- **round-robin add list.** With non-negative uses: the add list has `Σ uses` entries, feature
+`f` occurs exactly `uses[f]` times, and every entry is a feature index. -/
+theorem addList_facts (uses : List Int) (h0 : ∀ x ∈ uses, 0 ≤ x) :
+    ((addList uses).length : Int) = isum uses ∧
+    (∀ f, f < uses.length → ((addList uses).count f : Int) = uses.getD f 0) ∧
+    (∀ f ∈ addList uses, f < uses.length) := by
+  obtain ⟨hm0, hmx⟩ := foldl_max_ge uses 0
+  have hcast : (((uses.foldl max 0).toNat : Nat) : Int) = uses.foldl max 0 := Int.toNat_of_nonneg hm0
+  refine ⟨?_, ?_, ?_⟩
+  · rw [addList_eq, length_rr_prefix uses h0, hcast]
+    exact isum_min_of_le _ uses hmx
+  · intro f hf
+    have hfm : uses.getD f 0 ∈ uses := by
+      simp [List.getD_eq_getElem?_getD, List.getElem?_eq_getElem hf]
+    rw [addList_eq, count_rr_prefix uses f hf (h0 _ hfm), hcast]
+    exact min_eq_right (hmx _ hfm)
+  · intro f hf
+    rw [addList_eq, List.mem_flatMap] at hf
+    obtain ⟨u, _, hu⟩ := hf
+    obtain ⟨x, hx, _⟩ := (mem_rrRow uses u f).mp hu
+    exact (List.getElem?_eq_some_iff.mp hx).1
+
+
+/-! ### Crystals: greedy placement -/
+
+theorem discPow_pos (c : Int) : 0 < discPow c := by
+  unfold discPow; split_ifs <;> positivity
+
+theorem addScore_full {t : List (List Rat)} {c : List (List Int)} {r : Nat} {e : Rat} {f : Nat} {lat : List Nat}
+    (h : r ≤ lat.length) : addScore t c r e f lat = -2 := by
+  unfold addScore; rw [if_pos h]
+
+theorem addScore_nonfull {t : List (List Rat)} {c : List (List Int)} {r : Nat} {e : Rat} {f : Nat} {lat : List Nat}
+    (ht : ∀ i j, 0 ≤ getT t i j) (he : 0 ≤ e) (h : lat.length < r) : -1 ≤ addScore t c r e f lat := by
+  unfold addScore
+  rw [if_neg (by omega)]
+  split_ifs
+  · exact le_refl _
+  · linarith
+  · have : 0 ≤ rsum (lat.map fun o => getT t f o * discPow (getC c f o)) := rsum_nonneg (by
+      intro x hx
+      rw [List.mem_map] at hx
+      obtain ⟨o, _, rfl⟩ := hx
+      exact mul_nonneg (ht f o) (discPow_pos _).le)
+    linarith
+
+/-- `bestCand` returns an index of a maximal score -/
+theorem bestCand_spec (sc : List Rat) : ∀ (ss : List Rat) (i : Nat) (best : Rat × Nat),
+    sc.drop i = ss → sc[best.2]? = some best.1 → (∀ (j : Nat) (x : Rat), j < i → sc[j]? = some x → x ≤ best.1) →
+    ∃ v, sc[bestCand ss i best]? = some v ∧ ∀ (j : Nat) (x : Rat), sc[j]? = some x → x ≤ v
+  | [], i, best, hd, hb, hmax => by
+    refine ⟨best.1, hb, ?_⟩
+    intro j x hx
+    have hlen : sc.length ≤ i := by
+      have := congrArg List.length hd
+      simp at this; omega
+    exact hmax j x (by have := (List.getElem?_eq_some_iff.mp hx).1; omega) hx
+  | s :: ss, i, best, hd, hb, hmax => by
+    have hi : sc[i]? = some s := by
+      have := List.getElem?_drop (xs := sc) (i := i) (j := 0)
+      rw [hd] at this
+      simpa using this.symm
+    have hd' : sc.drop (i + 1) = ss := by
+      have : (sc.drop i).drop 1 = ss := by rw [hd]; rfl
+      rwa [List.drop_drop] at this
+    unfold bestCand
+    apply bestCand_spec sc ss (i + 1) _ hd'
+    · split_ifs
+      · exact hi
+      · exact hb
+    · intro j x hj hx
+      rcases Nat.lt_succ_iff_lt_or_eq.mp hj with hj | rfl
+      · have := hmax j x hj hx
+        split_ifs with hle
+        · exact le_trans this hle
+        · exact this
+      · rw [hi] at hx
+        simp only [Option.some.injEq] at hx
+        subst hx
+        split_ifs with hle
+        · exact le_refl _
+        · exact (not_le.mp hle).le
+
+def tot (lats : List (List Nat)) : Nat := (lats.map List.length).sum
+
+theorem tot_set_append : ∀ (lats : List (List Nat)) (b : Nat) (hb : b < lats.length) (f : Nat),
+    tot (lats.set b (lats[b] ++ [f])) = tot lats + 1
+  | lat :: lats, 0, _, f => by simp [tot]; omega
+  | lat :: lats, b + 1, hb, f => by
+    have := tot_set_append lats b (by simpa using hb) f
+    simp only [tot, List.set_cons_succ, List.map_cons, List.sum_cons, List.getElem_cons_succ] at this ⊢
+    omega
+
+theorem tot_le (r : Nat) : ∀ (lats : List (List Nat)), (∀ lat ∈ lats, lat.length ≤ r) → tot lats ≤ lats.length * r
+  | [], _ => by simp [tot]
+  | lat :: lats, h => by
+    have h1 := h lat List.mem_cons_self
+    have h2 := tot_le r lats (fun l hl => h l (List.mem_cons_of_mem _ hl))
+    simp only [tot, List.map_cons, List.sum_cons, List.length_cons] at h2 ⊢
+    rw [Nat.succ_mul]; omega
+
+theorem exists_nonfull (r : Nat) : ∀ (lats : List (List Nat)), tot lats < lats.length * r →
+    ∃ i, ∃ h : i < lats.length, lats[i].length < r
+  | [], h => by simp [tot] at h
+  | lat :: lats, h => by
+    by_cases hl : lat.length < r
+    · exact ⟨0, by simp, by simpa using hl⟩
+    · have : tot lats < lats.length * r := by
+        simp only [tot, List.map_cons, List.sum_cons, List.length_cons] at h ⊢
+        rw [Nat.succ_mul] at h; omega
+      obtain ⟨i, hi, h'⟩ := exists_nonfull r lats this
+      exact ⟨i + 1, by simpa using hi, by simpa using h'⟩
+
+theorem all_full (r : Nat) : ∀ (lats : List (List Nat)), (∀ lat ∈ lats, lat.length ≤ r) →
+    tot lats = lats.length * r → ∀ lat ∈ lats, lat.length = r
+  | [], _, _ => fun _ h => by cases h
+  | lat :: lats, hle, ht => by
+    have h1 := hle lat List.mem_cons_self
+    have hle' : ∀ l ∈ lats, l.length ≤ r := fun l hl => hle l (List.mem_cons_of_mem _ hl)
+    have h2 := tot_le r lats hle'
+    simp only [tot, List.map_cons, List.sum_cons, List.length_cons] at ht h2
+    rw [Nat.succ_mul] at ht
+    have h3 : tot lats = lats.length * r := by simp only [tot]; omega
+    intro l hl
+    rcases List.mem_cons.mp hl with rfl | hl
+    · omega
+    · exact all_full r lats hle' h3 l hl
+
+/-- one greedy placement: as long as a slot is free the feature goes to a lattice that is not
+full (a full lattice scores `-2`, every other at least `-1`) -/
+theorem placeStep_facts (t : List (List Rat)) (r : Nat) (e : Rat) (ht : ∀ i j, 0 ≤ getT t i j) (he : 0 ≤ e)
+    (st : List (List Nat) × List (List Int)) (f : Nat)
+    (hle : ∀ lat ∈ st.1, lat.length ≤ r) (hroom : tot st.1 < st.1.length * r) :
+    (placeStep t r e st f).1.length = st.1.length ∧
+    (∀ lat ∈ (placeStep t r e st f).1, lat.length ≤ r) ∧
+    tot (placeStep t r e st f).1 = tot st.1 + 1 ∧
+    (∃ lat ∈ (placeStep t r e st f).1, f ∈ lat) ∧
+    (∀ g, (∃ lat ∈ st.1, g ∈ lat) → ∃ lat ∈ (placeStep t r e st f).1, g ∈ lat) := by
+  obtain ⟨i, hi, hfree⟩ := exists_nonfull r st.1 hroom
+  unfold placeStep
+  cases hsc : st.1.map (addScore t st.2 r e f) with
+  | nil =>
+    have hnil : st.1 = [] := List.map_eq_nil_iff.mp hsc
+    rw [hnil] at hi
+    simp at hi
+  | cons s ss =>
+    simp only
+    set sc := s :: ss with hscd
+    have hlen : sc.length = st.1.length := by rw [← hsc, List.length_map]
+    obtain ⟨v, hv, hmax⟩ := bestCand_spec sc ss 1 (s, 0) (by simp [hscd]) (by simp [hscd])
+      (by
+        intro j x hj hx
+        have : j = 0 := by omega
+        subst this
+        simp only [hscd, List.getElem?_cons_zero, Option.some.injEq] at hx
+        subst hx; exact le_refl _)
+    set b := bestCand ss 1 (s, 0) with hb
+    have hbl : b < st.1.length := by rw [← hlen]; exact (List.getElem?_eq_some_iff.mp hv).1
+    have hvb : v = addScore t st.2 r e f st.1[b] := by
+      have h1 : sc[b]? = some (addScore t st.2 r e f st.1[b]) := by
+        rw [← hsc, List.getElem?_map, List.getElem?_eq_getElem hbl]; rfl
+      rw [hv] at h1
+      exact Option.some.inj h1
+    have hsi : sc[i]? = some (addScore t st.2 r e f st.1[i]) := by
+      rw [← hsc, List.getElem?_map, List.getElem?_eq_getElem hi]; rfl
+    have hge : -1 ≤ v := le_trans (addScore_nonfull ht he hfree) (hmax i _ hsi)
+    have hbfree : st.1[b].length < r := by
+      by_contra hfull
+      rw [hvb, addScore_full (by omega)] at hge
+      linarith
+    have hgetD : st.1.getD b [] = st.1[b] := by
+      simp [List.getD_eq_getElem?_getD, List.getElem?_eq_getElem hbl]
+    rw [hgetD]
+    refine ⟨by simp, ?_, tot_set_append st.1 b hbl f, ⟨_, List.mem_set hbl _, by simp⟩, ?_⟩
+    · intro lat hlat
+      rcases List.mem_or_eq_of_mem_set hlat with h | rfl
+      · exact hle lat h
+      · simp only [List.length_append, List.length_singleton]; omega
+    · intro g hg
+      exact exists_mem_set hbl _ (fun y hy => List.mem_append_left _ hy) g hg
+
+theorem place_all (t : List (List Rat)) (r L : Nat) (e : Rat) (ht : ∀ i j, 0 ≤ getT t i j) (he : 0 ≤ e) :
+    ∀ (al : List Nat) (st : List (List Nat) × List (List Int)),
+    st.1.length = L → (∀ lat ∈ st.1, lat.length ≤ r) → tot st.1 + al.length = L * r →
+    (al.foldl (placeStep t r e) st).1.length = L ∧
+    (∀ lat ∈ (al.foldl (placeStep t r e) st).1, lat.length = r) ∧
+    (∀ g, (g ∈ al ∨ ∃ lat ∈ st.1, g ∈ lat) → ∃ lat ∈ (al.foldl (placeStep t r e) st).1, g ∈ lat)
+  | [], st, hL, hle, htot => by
+    simp only [List.foldl_nil, List.length_nil, Nat.add_zero] at htot ⊢
+    refine ⟨hL, all_full r st.1 hle (by rw [hL]; exact htot), ?_⟩
+    rintro g (h | h)
+    · cases h
+    · exact h
+  | f :: al, st, hL, hle, htot => by
+    simp only [List.length_cons] at htot
+    obtain ⟨p1, p2, p3, p4, p5⟩ := placeStep_facts t r e ht he st f hle (by rw [hL]; omega)
+    obtain ⟨q1, q2, q3⟩ := place_all t r L e ht he al (placeStep t r e st f) (by rw [p1, hL]) p2
+      (by rw [p3]; omega)
+    rw [List.foldl_cons]
+    refine ⟨q1, q2, ?_⟩
+    rintro g (h | h)
+    · rcases List.mem_cons.mp h with rfl | h
+      · exact q3 g (Or.inr p4)
+      · exact q3 g (Or.inl h)
+    · exact q3 g (Or.inr (p5 g h))
+
+
+/-! ### Crystals: the swap phase keeps lattice sizes and placed features -/
+
+/-- `new` has as many lattices as `old`, of the same sizes, and every feature present in `old`
+is present in `new` -/
+def SwapOk (old new : List (List Nat)) : Prop :=
+  new.length = old.length ∧ (∀ lat ∈ new, ∃ lat' ∈ old, lat.length = lat'.length) ∧
+  (∀ g, (∃ lat ∈ old, g ∈ lat) → ∃ lat ∈ new, g ∈ lat)
+
+theorem SwapOk.refl (l : List (List Nat)) : SwapOk l l :=
+  ⟨rfl, fun lat h => ⟨lat, h, rfl⟩, fun _ h => h⟩
+
+theorem SwapOk.trans {a b c : List (List Nat)} (h1 : SwapOk a b) (h2 : SwapOk b c) : SwapOk a c := by
+  refine ⟨h2.1.trans h1.1, ?_, fun g hg => h2.2.2 g (h1.2.2 g hg)⟩
+  intro lat hlat
+  obtain ⟨l', hl', e⟩ := h2.2.1 lat hlat
+  obtain ⟨l'', hl'', e'⟩ := h1.2.1 l' hl'
+  exact ⟨l'', hl'', e.trans e'⟩
+
+theorem swap_two (lats : List (List Nat)) (a b i0 i1 f0 f1 : Nat) (hab : a ≠ b) (ha : a < lats.length)
+    (hb : b < lats.length) (h0 : lats[a][i0]? = some f0) (h1 : lats[b][i1]? = some f1) :
+    SwapOk lats ((lats.set a (lats[a].set i0 f1)).set b (lats[b].set i1 f0)) := by
+  obtain ⟨hi0, e0⟩ := List.getElem?_eq_some_iff.mp h0
+  obtain ⟨hi1, e1⟩ := List.getElem?_eq_some_iff.mp h1
+  set new := (lats.set a (lats[a].set i0 f1)).set b (lats[b].set i1 f0) with hnew
+  have hlen : new.length = lats.length := by simp [hnew]
+  have hna : new[a]'(by omega) = lats[a].set i0 f1 := by
+    simp only [hnew]
+    rw [List.getElem_set_ne (by omega), List.getElem_set_self]
+  have hnb : new[b]'(by omega) = lats[b].set i1 f0 := by
+    simp only [hnew]
+    rw [List.getElem_set_self]
+  have hnj : ∀ j (hj : j < lats.length), j ≠ a → j ≠ b → new[j]'(by omega) = lats[j] := by
+    intro j hj h1 h2
+    simp only [hnew]
+    rw [List.getElem_set_ne (by omega), List.getElem_set_ne (by omega)]
+  refine ⟨hlen, ?_, ?_⟩
+  · intro lat hlat
+    obtain ⟨j, hj, rfl⟩ := List.getElem_of_mem hlat
+    have hj' : j < lats.length := by omega
+    by_cases hja : j = a
+    · subst hja
+      exact ⟨lats[j], List.getElem_mem _, by rw [hna]; simp⟩
+    · by_cases hjb : j = b
+      · subst hjb
+        exact ⟨lats[j], List.getElem_mem _, by rw [hnb]; simp⟩
+      · exact ⟨lats[j], List.getElem_mem _, by rw [hnj j hj' hja hjb]⟩
+  · rintro g ⟨lat, hlat, hg⟩
+    obtain ⟨j, hj, rfl⟩ := List.getElem_of_mem hlat
+    obtain ⟨k, hk, rfl⟩ := List.getElem_of_mem hg
+    by_cases hja : j = a
+    · subst hja
+      by_cases hk0 : k = i0
+      · subst hk0
+        refine ⟨new[b]'(by omega), List.getElem_mem _, ?_⟩
+        rw [hnb, e0]
+        exact List.mem_set hi1 _
+      · refine ⟨new[j]'(by omega), List.getElem_mem _, ?_⟩
+        rw [hna]
+        have : (lats[j].set i0 f1)[k]'(by simpa using hk) = lats[j][k] := List.getElem_set_ne (Ne.symm hk0) _
+        rw [← this]; exact List.getElem_mem _
+    · by_cases hjb : j = b
+      · subst hjb
+        by_cases hk1 : k = i1
+        · subst hk1
+          refine ⟨new[a]'(by omega), List.getElem_mem _, ?_⟩
+          rw [hna, e1]
+          exact List.mem_set hi0 _
+        · refine ⟨new[j]'(by omega), List.getElem_mem _, ?_⟩
+          rw [hnb]
+          have : (lats[j].set i1 f0)[k]'(by simpa using hk) = lats[j][k] := List.getElem_set_ne (Ne.symm hk1) _
+          rw [← this]; exact List.getElem_mem _
+      · refine ⟨new[j]'(by omega), List.getElem_mem _, ?_⟩
+        rw [hnj j hj hja hjb]; exact List.getElem_mem _
+
+theorem getD_of_getElem? {lats : List (List Nat)} {a i f : Nat} (h : (lats.getD a [])[i]? = some f) :
+    ∃ ha : a < lats.length, lats.getD a [] = lats[a] := by
+  by_cases ha : a < lats.length
+  · exact ⟨ha, by simp [List.getD_eq_getElem?_getD, List.getElem?_eq_getElem ha]⟩
+  · have hnone : lats[a]? = none := List.getElem?_eq_none (by omega)
+    have : lats.getD a [] = [] := by simp [List.getD_eq_getElem?_getD, hnone]
+    rw [this] at h; simp at h
+
+theorem crySwapStep_ok (t : List (List Rat)) (st : Cry) (q : Nat × Nat × Nat × Nat) (hq : q.1 ≠ q.2.1) :
+    SwapOk st.lats (crySwapStep t st q).lats := by
+  unfold crySwapStep
+  simp only
+  split
+  · rename_i f0 f1 h0 h1
+    obtain ⟨ha, ea⟩ := getD_of_getElem? h0
+    obtain ⟨hb, eb⟩ := getD_of_getElem? h1
+    split_ifs
+    · exact SwapOk.refl _
+    · rw [ea] at h0
+      rw [eb] at h1
+      rw [ea, eb]
+      exact swap_two st.lats q.1 q.2.1 q.2.2.1 q.2.2.2 f0 f1 hq ha hb h0 h1
+    · exact SwapOk.refl _
+  · exact SwapOk.refl _
+
+theorem fst_lt_of_mem_quads {L m : Nat} {q : Nat × Nat × Nat × Nat} (h : q ∈ quads L m) : q.1 < q.2.1 := by
+  unfold quads at h
+  simp only [List.mem_flatMap, List.mem_map, List.mem_filter, List.mem_range, decide_eq_true_eq] at h
+  obtain ⟨a, _, b, ⟨_, hab⟩, i0, _, i1, _, rfl⟩ := h
+  exact hab
+
+theorem foldl_crySwap_ok (t : List (List Rat)) : ∀ (qs : List (Nat × Nat × Nat × Nat)) (st : Cry),
+    (∀ q ∈ qs, q.1 ≠ q.2.1) → SwapOk st.lats (qs.foldl (crySwapStep t) st).lats
+  | [], st, _ => SwapOk.refl _
+  | q :: qs, st, h => by
+    rw [List.foldl_cons]
+    exact (crySwapStep_ok t st q (h q List.mem_cons_self)).trans
+      (foldl_crySwap_ok t qs _ (fun q' hq' => h q' (List.mem_cons_of_mem _ hq')))
+
+/-- the swap optimisation (whatever its cap) keeps the number of lattices, their sizes and every
+placed feature -/
+theorem crySwapLoop_ok (t : List (List Rat)) (L : Nat) : ∀ (fuel : Nat) (lats : List (List Nat)) (c : List (List Int)),
+    SwapOk lats (crySwapLoop t L fuel lats c).1
+  | 0, lats, _ => SwapOk.refl _
+  | fuel + 1, lats, c => by
+    unfold crySwapLoop
+    simp only
+    have hpass := foldl_crySwap_ok t (quads L (maxLen lats)) ⟨lats, c, false⟩
+      (fun q hq => Nat.ne_of_lt (fst_lt_of_mem_quads hq))
+    split_ifs
+    · exact hpass.trans (crySwapLoop_ok t L fuel _ _)
+    · exact hpass
+
+
+/-! ### random ensemble: totality -/
+
+/-- the draws of the first loop are values `np.random.choice(non_full_indices)` can return:
+an index into the candidate list whenever that list is not empty -/
+def ValidFirst (L r : Nat) : List Nat → List Nat → List (List Nat) → Prop
+  | [], _, _ => True
+  | _ :: _, [], _ => False
+  | f :: fs, c :: cs, lats =>
+    (((List.range L).filter (fun i => (lats.getD i []).length < r)) ≠ [] →
+        c < ((List.range L).filter (fun i => (lats.getD i []).length < r)).length) ∧
+      ∀ i, ((List.range L).filter (fun i => (lats.getD i []).length < r))[c]? = some i →
+        ValidFirst L r fs cs (lats.set i (lats.getD i [] ++ [f]))
+
+/-- the draws of the second loop are values `np.random.choice(cands, size=m, replace=False)` can
+return: `m = rank - len(lattice)` distinct indices into the candidate list -/
+def ValidFill (n r : Nat) : List (List Nat) → List (List Nat) → Prop
+  | [], _ => True
+  | _ :: _, [] => False
+  | lat :: lats, d :: ds =>
+    d.length = r - lat.length ∧ d.Nodup ∧
+      (∀ i ∈ d, i < ((List.range n).filter (fun f => !lat.contains f)).length) ∧ ValidFill n r lats ds
+
+theorem randomFirst_total (L r : Nat) : ∀ (fs cs : List Nat) (lats : List (List Nat)),
+    lats.length = L → (∀ lat ∈ lats, lat.length ≤ r) → tot lats + fs.length ≤ L * r →
+    ValidFirst L r fs cs lats → ∃ out, randomFirst L r fs cs lats = .ok out
+  | [], _, lats, _, _, _, _ => ⟨lats, by simp [randomFirst]⟩
+  | _ :: _, [], _, _, _, _, hv => by simp [ValidFirst] at hv
+  | f :: fs, c :: cs, lats, hL, hle, htot, hv => by
+    simp only [ValidFirst] at hv
+    obtain ⟨hv1, hv2⟩ := hv
+    simp only [List.length_cons] at htot
+    obtain ⟨j, hj, hjfree⟩ := exists_nonfull r lats (by rw [hL]; omega)
+    have hne : ((List.range L).filter (fun i => (lats.getD i []).length < r)) ≠ [] := by
+      intro h
+      rw [List.filter_eq_nil_iff] at h
+      have := h j (List.mem_range.mpr (by omega))
+      simp [List.getD_eq_getElem?_getD, List.getElem?_eq_getElem hj, hjfree] at this
+    have hc := hv1 hne
+    have hget := List.getElem?_eq_getElem hc
+    set i := ((List.range L).filter (fun i => (lats.getD i []).length < r))[c] with hi
+    have himem : i ∈ (List.range L).filter (fun i => (lats.getD i []).length < r) := List.getElem_mem _
+    rw [List.mem_filter, List.mem_range] at himem
+    obtain ⟨hiL, hifree⟩ := himem
+    have hil : i < lats.length := by omega
+    have hgetD : lats.getD i [] = lats[i] := by simp [List.getD_eq_getElem?_getD, List.getElem?_eq_getElem hil]
+    have hifree' : lats[i].length < r := by rw [hgetD] at hifree; simpa using hifree
+    have hrec := randomFirst_total L r fs cs (lats.set i (lats.getD i [] ++ [f])) (by simpa using hL)
+      (by
+        intro lat hlat
+        rcases List.mem_or_eq_of_mem_set hlat with h | rfl
+        · exact hle lat h
+        · rw [hgetD]; simp only [List.length_append, List.length_singleton]; omega)
+      (by rw [hgetD, tot_set_append lats i hil f]; omega)
+      (hv2 i hget)
+    obtain ⟨out, hout⟩ := hrec
+    refine ⟨out, ?_⟩
+    unfold randomFirst
+    simp only [hget]
+    exact hout
+
+theorem cands_length (n : Nat) (lat : List Nat) :
+    n ≤ ((List.range n).filter (fun f => !lat.contains f)).length + lat.length := by
+  have h1 := List.length_eq_length_filter_add (l := List.range n) (fun f => lat.contains f)
+  rw [List.length_range] at h1
+  have hsub : ((List.range n).filter (fun f => lat.contains f)).length ≤ lat.length := by
+    apply (List.subperm_of_subset (List.nodup_range.filter _) _).length_le
+    intro x hx
+    rw [List.mem_filter] at hx
+    simpa using hx.2
+  omega
+
+theorem randomFill_total (n r : Nat) (hrn : r ≤ n) : ∀ (lats ds : List (List Nat)),
+    ValidFill n r lats ds → ∃ out, randomFill n r lats ds = .ok out
+  | [], _, _ => ⟨[], by simp [randomFill]⟩
+  | _ :: _, [], hv => by simp [ValidFill] at hv
+  | lat :: lats, d :: ds, hv => by
+    simp only [ValidFill] at hv
+    obtain ⟨h1, h2, h3, h4⟩ := hv
+    obtain ⟨rest, hrest⟩ := randomFill_total n r hrn lats ds h4
+    have hc := cands_length n lat
+    have hchoice : choiceNoReplace ((List.range n).filter (fun f => !lat.contains f)) (r - lat.length) d
+        = .ok (d.filterMap (fun i => ((List.range n).filter (fun f => !lat.contains f))[i]?)) := by
+      unfold choiceNoReplace
+      rw [if_neg (by omega), if_neg]
+      simp only [Bool.or_eq_true, not_or, Bool.not_eq_true', Bool.not_eq_false]
+      refine ⟨⟨by simpa using h1, ?_⟩, by simpa using h2⟩
+      rw [List.all_eq_true]
+      intro i hi
+      simpa using h3 i hi
+    refine ⟨(lat ++ d.filterMap (fun i => ((List.range n).filter (fun f => !lat.contains f))[i]?)) :: rest, ?_⟩
+    unfold randomFill
+    simp only [bind, Except.bind, pure, Except.pure, hchoice, hrest]
+
 
 end Tfl.Ensembles
